@@ -1,4 +1,4 @@
 From Coq Require Import Extraction ExtrOcamlBasic ExtrOcamlString.
 From Coq Require Import ZArith.
-From Bloch Require Import Lang.Syntax Lang.Eval Lang.Typing.
-Extraction "lang_model.ml" check_program run show_Z find_fn Z.add Z.mul Z.opp.
+From Bloch Require Import Lang.Syntax Lang.Eval Lang.Typing Lang.ClassTyping.
+Extraction "lang_model.ml" ccheck_program check_program run show_Z find_fn Z.add Z.mul Z.opp.
